@@ -214,6 +214,7 @@ func decodeStream(cfg hx.Config, ch *simrt.Chooser, b []byte, cuts []int, rec bo
 	if err != nil {
 		return nil, err
 	}
+	w.S.Note(hx.Fingerprint(cfg, b, cuts))
 	isCut := map[int]bool{}
 	for _, c := range cuts {
 		isCut[c] = true
